@@ -370,6 +370,13 @@ class Interp:
             return cat(*out)
         if isinstance(e, ast.IfExp):
             return self.ev(e.body if self.cond(e.test, env) else e.orelse, env)
+        if isinstance(e, ast.Dict) and all(isinstance(k, ast.Constant) for k in e.keys):
+            return {k.value: self.ev(v, env) for k, v in zip(e.keys, e.values)}       # a small local table with constant keys
+        if isinstance(e, ast.Subscript) and isinstance(e.value, ast.Name) and isinstance(env.get(e.value.id), dict) and isinstance(e.slice, ast.Constant):
+            tbl = env[e.value.id]
+            if e.slice.value not in tbl:
+                raise Raised('KeyError %r' % (e.slice.value,))
+            return tbl[e.slice.value]
         if isinstance(e, ast.Subscript):
             if self.subscript_hook is not None:
                 r = self.subscript_hook(self, e, env)
@@ -863,6 +870,13 @@ class Interp:
             return None
         if isinstance(st, ast.For):
             return self.exec_for(st, env)
+        if isinstance(st, ast.Expr) and isinstance(st.value, ast.Call) and isinstance(st.value.func, ast.Attribute) and st.value.func.attr == 'update' \
+                and isinstance(st.value.func.value, ast.Name) and isinstance(env.get(st.value.func.value.id), dict) and len(st.value.args) == 1 and not st.value.keywords:
+            other = self.ev(st.value.args[0], env)
+            if not isinstance(other, dict):
+                raise _nt(st, '(update with a non-table)')
+            env[st.value.func.value.id] = dict(env[st.value.func.value.id], **other)
+            return None
         if isinstance(st, ast.Expr) and isinstance(st.value, ast.Call):
             c = st.value
             f = c.func
